@@ -115,7 +115,7 @@ def part_direct(chk, sc, drv_asan, drv_plain, total, chunk):
     jobs.append(tpath)
 
     def one(path):
-        p = vlib.run([sys.executable or "/usr/bin/python3", os.path.join(HERE, "c12_direct.py"), path], wall_s=3600, max_out=1 << 30)
+        p = vlib.run([sys.executable or "/usr/bin/python3", os.path.join(HERE, "c12_direct.py"), path], wall_s=1500, max_out=1 << 30)
         if p.timed_out or p.rc != 0:
             return {"failed": p.err[-3000:], "count": json.load(open(path)).get("count", 0)}
         return json.loads(p.out)
